@@ -109,6 +109,9 @@ def census_problems(o):
                 if a.cysteine_bridge:
                     if g.titratable or abs(g.pka_value - 99.99) > 1e-9:
                         probs.append("%s: bridged %s titratable=%s pKa=%r" % (cname, g.label, g.titratable, g.pka_value))
+                elif not g.titratable and getattr(o.mol.options, "titrate_only", None) is None:
+                    # the site is predicted: it titrates (only --titrate_only and a disulfide bridge switch that off)
+                    probs.append("%s: site %s is present but not titrated" % (cname, g.label))
         # nothing that is not in the structure: every titratable protein group sits on a defining atom of this conformation
         atom_ids = {id(a) for a in conf.atoms}
         for g in conf.groups:
